@@ -395,31 +395,8 @@ def _key(ck, p, byk):
         else:
             ck.refuted(rule, "chunk-cache:%s:tokenisation" % what, f.loc(t["ln"]),
                        "(c) the memoised run_on_chunk reads every token's kind, but %s: the same characters tokenised differently (another language/parser on the same long-lived linter) are served the other tokenisation's lints" % why)
-    # (d) symmetric re-basing
-    pulls = [(bi, t) for bi, t in f.calls() if inst_of(t) == "harper_core::span::{impl}::pull_by"]
-    pushes = [(bi, t) for bi, t in f.calls() if inst_of(t) == "harper_core::span::{impl}::push_by"]
-    apps = [(bi, t) for bi, t in f.calls() if method(t) in ("append", "extend") and bi > 0 and _is_results(f, pv, t)]
-    ok = len(pulls) == 1 and len(pushes) == 1
-    detail = "pull_by sites=%d push_by sites=%d" % (len(pulls), len(pushes))
-    if ok:
-        o1 = _offset_id(f, pv, pulls[0][1]["args"][1])
-        o2 = _offset_id(f, pv, pushes[0][1]["args"][1])
-        same = o1 is not None and o1 == o2
-        loops = cfg.natural_loops()
-
-        def loop_head(b):
-            hs = [h for h, body in loops.items() if b in body]
-            # innermost loop: the one with the smallest body
-            return min(hs, key=lambda h: len(loops[h])) if hs else b
-        pull_h, push_h = loop_head(pulls[0][0]), loop_head(pushes[0][0])
-        # the pull_by loop (over every element) lies on every way to the put; the push_by loop on every
-        # way from the put and from the cache lookup to results.append
-        before_put = cfg.dominates(pull_h, puts[0][0]) and pull_h != puts[0][0]
-        after_put = cfg.every_path_passes(puts[0][0], [push_h], to=[x for x, _ in apps])[0]
-        after_hit = cfg.every_path_passes(gets[0][0], [push_h], to=[x for x, _ in apps])[0]
-        ok = same and before_put and after_put and after_hit and bool(apps)
-        detail += "; same offset value (%s vs %s)=%s; pull_by precedes put=%s; push_by lies on every path from put and from the lookup to results.append=%s/%s" % (o1, o2, same, before_put, after_put, after_hit)
-    ck.decide(rule, "chunk-cache:rebase", ok, f.span, "(d) " + detail)
+    # (d) symmetric re-basing: what is subtracted before the lints are stored / handed over is what is added back
+    _rebase_symmetry(ck, p, rule, byk, f, cfg, pv, gets, puts)
     # (b) shared with C11
     c11._key(_Sub(ck, rule, "config:"), p, byk)
     # word_cache
@@ -771,3 +748,98 @@ def _rebuild(ck, p):
         if g and new_group:
             ok = True
     ck.decide(rule, "Backend::update_document", ok, f.span, detail + "; a new LintGroup is stored under `doc_state.dict != dict`: %s" % ok)
+
+
+# ---------------------------------------------------------------------------------------------------
+def _base_kind(p, f, pv, op):
+    """how an offset is derived from a token slice: ('span-start' | 'first-start' | 'last-end' ..., origins of the slice)"""
+    for o in arg_roots(f, pv, op):
+        if o[0] != "call":
+            continue
+        ct = f.blocks[o[1]]["t"]
+        m = method(ct)
+        inst = norm(inst_of(ct))
+        if m == "span" and "token_string_ext" in inst and ct["args"]:
+            return ("span-start", frozenset(x for x in flatten(pv.trace_operand(ct["args"][0])) if x[0] in ("call", "arg")))
+        if m in ("first", "last", "get", "index") and ct["args"] and ("slice" in inst or "vec" in inst):
+            return ("%s-start" % m, frozenset(x for x in flatten(pv.trace_operand(ct["args"][0])) if x[0] in ("call", "arg")))
+    return None
+
+
+def _rebase_symmetry(ck, p, rule, byk, lf, lcfg, lpv, gets, puts):
+    ROC = "harper_core::linting::pattern_linter::run_on_chunk"
+    PULL, PUSH = "harper_core::span::{impl}::pull_by", "harper_core::span::{impl}::push_by"
+    callee = p.fns.get(ROC)
+    if not ck.anchor(rule, "run_on_chunk", callee):
+        return
+    # summary of run_on_chunk: does it hand back chunk-relative spans, and relative to what?
+    cpv = Prov(callee)
+    c_pulls = [(h, t) for h in with_closures(p, callee) for _, t in h.calls() if inst_of(t) == PULL]
+    c_pushes = [(h, t) for h in with_closures(p, callee) for _, t in h.calls() if inst_of(t) == PUSH]
+    c_kind = None
+    if c_pulls:
+        h, t = c_pulls[0]
+        k = _base_kind(p, h, Prov(h), t["args"][1])
+        c_kind = k[0] if k else "unrecognised"
+    callers = [g for g in p.fns.values() if g.name.startswith("harper_core::") and any(inst_of(t) == ROC for _, t in g.calls())]
+    for g in sorted(callers, key=lambda g: g.name):
+        ck.saw(g)
+        gpv = lpv if g is lf else Prov(g)
+        gcfg = lcfg if g is lf else Cfg(g)
+        site = [(bi, t) for bi, t in g.calls() if inst_of(t) == ROC][0]
+        chunk_src = frozenset(x for x in flatten(gpv.trace_operand(site[1]["args"][1])) if x[0] in ("call", "arg"))
+        pulls = [(bi, t) for bi, t in g.calls() if inst_of(t) == PULL]
+        pushes = [(bi, t) for bi, t in g.calls() if inst_of(t) == PUSH]
+        key = "chunk-cache:rebase" if g is lf else "%s:rebase" % keyname(p, g)
+        if len(pulls) > 1 or len(pushes) > 1 or len(c_pulls) > 1 or c_pushes:
+            ck.undecided(rule, key, g.span, "(d) more than one pull_by / push_by site (here %d/%d, in run_on_chunk %d/%d)" % (len(pulls), len(pushes), len(c_pulls), len(c_pushes)))
+            continue
+        if not pulls and not pushes and not c_pulls:
+            ck.proved(rule, key, g.span, "(d) spans are never made chunk-relative on this path")
+            continue
+        if pulls and c_pulls:
+            ck.refuted(rule, key, g.loc(pulls[0][1]["ln"]), "(d) the spans are pulled back twice (in run_on_chunk and here) and pushed once")
+            continue
+        pk = None
+        if pulls:
+            k = _base_kind(p, g, gpv, pulls[0][1]["args"][1])
+            pk = (k[0], k[1] == chunk_src) if k else ("unrecognised", False)
+        elif c_pulls:
+            pk = (c_kind, True)          # relative to its own `chunk` parameter = the slice passed here
+        if not pushes or pk is None:
+            ck.refuted(rule, key, g.span, "(d) chunk-relative spans (pull_by %s) are %s" % ("in run_on_chunk" if c_pulls else "here", "never pushed back" if not pushes else "pushed back without having been pulled"))
+            continue
+        k = _base_kind(p, g, gpv, pushes[0][1]["args"][1])
+        qk = (k[0], k[1] == chunk_src) if k else ("unrecognised", False)
+        same_local = bool(pulls) and _offset_id(g, gpv, pulls[0][1]["args"][1]) is not None and _offset_id(g, gpv, pulls[0][1]["args"][1]) == _offset_id(g, gpv, pushes[0][1]["args"][1])
+        detail = "pulled by %s of the chunk (%s), pushed back by %s" % (pk[0], "in run_on_chunk" if c_pulls else "here", qk[0])
+        if "unrecognised" in (pk[0], qk[0]) and not same_local:
+            ck.undecided(rule, key, g.loc(pushes[0][1]["ln"]), "(d) " + detail + ": offsets not recognised as derived from the chunk")
+            continue
+        if not same_local and (pk[0] != qk[0] or not pk[1] or not qk[1]):
+            ck.refuted(rule, key, g.loc(pushes[0][1]["ln"]), "(d) " + detail + ": the two differ whenever the first token of a chunk is not the one that starts earliest (Markdown puts the zero-width ParagraphBreak that closes a block at the start of the block's last text run), so the lint lands on other characters than the rule matched - possibly beyond the end of the text")
+            continue
+        # ordering around the cache (only where this function owns the cache)
+        if g is lf and gets and puts and pulls:
+            loops = gcfg.natural_loops()
+
+            def loop_head(b):
+                hs = [h for h, body in loops.items() if b in body]
+                return min(hs, key=lambda h: len(loops[h])) if hs else b
+            apps = [(bi, t) for bi, t in g.calls() if method(t) in ("append", "extend") and bi > 0 and _is_results(g, gpv, t)]
+            pull_h, push_h = loop_head(pulls[0][0]), loop_head(pushes[0][0])
+            before_put = gcfg.dominates(pull_h, puts[0][0]) and pull_h != puts[0][0]
+            after_put = gcfg.every_path_passes(puts[0][0], [push_h], to=[x for x, _ in apps])[0]
+            after_hit = gcfg.every_path_passes(gets[0][0], [push_h], to=[x for x, _ in apps])[0]
+            ok = before_put and after_put and after_hit and bool(apps)
+            ck.decide(rule, key, ok, g.span, "(d) " + detail + "; pull_by precedes put=%s; push_by lies on every path from put and from the lookup to results.append=%s/%s" % (before_put, after_put, after_hit))
+        elif g is lf and gets and puts:
+            apps = [(bi, t) for bi, t in g.calls() if method(t) in ("append", "extend") and bi > 0 and _is_results(g, gpv, t)]
+            loops = gcfg.natural_loops()
+            hs = [h for h, body in loops.items() if pushes[0][0] in body]
+            push_h = min(hs, key=lambda h: len(loops[h])) if hs else pushes[0][0]
+            after_put = gcfg.every_path_passes(puts[0][0], [push_h], to=[x for x, _ in apps])[0]
+            after_hit = gcfg.every_path_passes(gets[0][0], [push_h], to=[x for x, _ in apps])[0]
+            ck.decide(rule, key, after_put and after_hit and bool(apps), g.span, "(d) " + detail + "; push_by lies on every path from put and from the lookup to results.append=%s/%s" % (after_put, after_hit))
+        else:
+            ck.proved(rule, key, g.span, "(d) " + detail)
